@@ -941,7 +941,10 @@ def remove(
     conn = connect()
     conn.set_progress_handler(progress.update, 100000)
     try:
-        for rowid, id, _, _, _, _, version, *_ in find_lexicons(lexicon=lexicon):
+        # select before anything is deleted: find_lexicons() is lazy and
+        # resolves each specifier against the database as it is by then
+        selected = list(find_lexicons(lexicon=lexicon))
+        for rowid, id, _, _, _, _, version, *_ in selected:
             extensions = _find_all_extensions(rowid)
 
             with conn:
